@@ -30,6 +30,26 @@ for a, b, w in [(T, U, True), (F, U, None), (U, U, None), (F, F, False)]:
     check(f"or {a}{b}", R.ev(("or", a, b), row), w)
 check("not unknown", R.ev(("not", U), row), None)
 check("colcmp null", R.ev(("colcmp", "k", "=", "n"), row), None)
+# NULL-safe comparisons (Snowflake docs, EQUAL_NULL: "EQUAL_NULL(NULL, NULL) is TRUE, EQUAL_NULL(x, NULL) and
+# EQUAL_NULL(NULL, x) are FALSE"; IS [NOT] DISTINCT FROM likewise never returns NULL) - both argument orders
+K, N, V = ("col", "k"), ("col", "n"), ("col", "v")
+C = lambda x: ("const", x)  # noqa: E731
+for a, b, w in [
+    (K, C(1), True), (C(1), K, True), (K, C(2), False), (C(2), K, False),
+    (N, C(1), False), (C(1), N, False), (N, C(None), True), (C(None), N, True),
+    (K, C(None), False), (C(None), K, False), (C(None), C(None), True),
+    (K, N, False), (N, K, False), (N, N, True), (K, K, True), (V, C("a"), True), (C("b"), V, False),
+]:
+    check(f"equal_null {a}{b}", R.ev(("equal_null", a, b), row), w)
+    check(f"isnotdistinct {a}{b}", R.ev(("isnotdistinct", a, b), row), w)
+    check(f"isdistinct {a}{b}", R.ev(("isdistinct", a, b), row), not w)
+    check(f"not equal_null {a}{b}", R.ev(("not", ("equal_null", a, b)), row), not w)
+check("equal_null sql", R.sql(("equal_null", N, C(None))), "EQUAL_NULL(n, NULL)")
+check("isdistinct sql", R.sql(("isdistinct", C("a"), V)), "'a' IS DISTINCT FROM v")
+check("isnotdistinct sql", R.sql(("not", ("isnotdistinct", K, N))), "NOT (k IS NOT DISTINCT FROM n)")
+rows3 = [(1, "a", 1), (None, "b", 1), (1, "c", None), (None, "d", None), (2, "e", 1)]
+check("delete not equal_null", R.delete(rows3, ("not", ("equal_null", K, N))), ([(1, "a", 1), (None, "d", None)], 3))
+check("delete equal_null", R.delete(rows3, ("equal_null", K, N)), ([(None, "b", 1), (1, "c", None), (2, "e", 1)], 2))
 # DML: only TRUE rows are affected
 rows = [(1, "a", 10), (2, "b", None), (None, "c", 30)]
 check("delete unknown keeps", R.delete(rows, ("cmp", "k", "<>", 1)), ([(1, "a", 10), (None, "c", 30)], 1))
